@@ -30,7 +30,7 @@ def _int_const(e):
     raise TranslateError("subscript is not an integer literal: " + ast.unparse(e))
 
 
-def translate():
+def translate_stack():
     tree, _ = parse_file("textx/model.py")
     outer = find_func(tree, "parse_tree_to_objgraph")
     pn = [n for n in ast.walk(outer) if isinstance(n, ast.FunctionDef) and n.name == "process_node"]
@@ -90,3 +90,129 @@ def translate():
         "Definition src_follow_guard : list N := %s." % coq_codes(follow_guard),
     ]) + "\n")
     return []
+
+
+# ---------------------------------------------------------------------------------------------
+# Bodies of get_model / get_parent_of_type / get_children / get_children_of_type: the normalised
+# text (ast.unparse, docstrings and comments gone) must be the text Model/Nav.v transcribes, up to
+# the listed alternatives at the places the model hard-codes; the alternative found at each place is
+# emitted as a fact (Gen/SrcNavBody.v) and the model of Model/NavSrc.v is instantiated with it.
+import re
+
+
+def _norm(fn):
+    fn = ast.parse(ast.unparse(fn)).body[0]          # private copy
+    for x in ast.walk(fn):
+        if isinstance(x, ast.FunctionDef) and x.body and isinstance(x.body[0], ast.Expr) \
+                and isinstance(x.body[0].value, ast.Constant) and isinstance(x.body[0].value.value, str):
+            x.body = x.body[1:]
+    fn.returns = None
+    for a in fn.args.args:
+        a.annotation = None
+    return ast.unparse(fn)
+
+
+def _match(name, text, template, holes):
+    """template: text with {HOLE} markers; holes: {HOLE: [(source text, coq value), ...]}"""
+    rx = ""
+    for part in re.split(r"(\{[A-Z_]+\})", template):
+        if part.startswith("{") and part[1:-1] in holes:
+            rx += "(?P<%s>%s)" % (part[1:-1], "|".join(re.escape(src) for src, _ in holes[part[1:-1]]))
+        else:
+            rx += re.escape(part)
+    m = re.fullmatch(rx, text)
+    if m is None:
+        raise TranslateError("body of %s is not the text the model transcribes (nor a known variant of it):\n%s" % (name, text))
+    return {h: dict(alts)[m.group(h)] for h, alts in holes.items()}
+
+
+GM_T = """def get_model(obj):
+    p = obj
+    while {LOOP}:
+        p = p.parent
+    return p"""
+GM_H = {"LOOP": [("hasattr(p, 'parent')", "LHasattr"), ("getattr(p, 'parent', None) is not None", "LNotNone"),
+                 ("getattr(p, 'parent', None)", "LTruthy")]}
+
+POT_T = """def get_parent_of_type(typ, obj):
+    if not isinstance(typ, str):
+        typ = typ.__name__
+    {LOOP}
+    return None"""
+POT_H = {"LOOP": [
+    ("while hasattr(obj, 'parent'):\n        obj = obj.parent\n        if obj.__class__.__name__ == typ:\n            return obj", "false"),
+    ("while hasattr(obj, 'parent'):\n        if obj.__class__.__name__ == typ:\n            return obj\n        obj = obj.parent", "true"),
+    ("while obj is not None:\n        if obj.__class__.__name__ == typ:\n            return obj\n        obj = getattr(obj, 'parent', None)", "true"),
+]}
+
+GC_T = """def get_children(selector, root, children_first=False, should_follow=lambda obj: True):
+    collected = []
+    collected_ids = set()
+
+    def follow(elem):
+        if {SEEN}:
+            return
+        cls = elem.__class__
+        if {PRE}hasattr(cls, '_tx_attrs') and selector(elem):
+            collected.append(elem)
+            collected_ids.add(id(elem))
+        if hasattr(cls, '_tx_attrs'):
+            for attr_name, attr in cls._tx_attrs.items():
+                if {GUARD}:
+                    if attr.mult in ({MULTS}):
+                        new_elem = getattr(elem, attr_name)
+                        if {SINGLE}:
+                            follow(new_elem)
+                    else:
+                        new_elem_list = getattr(elem, attr_name)
+                        if new_elem_list:
+                            for new_elem in new_elem_list:
+                                {ELEM}
+        if {POST}hasattr(cls, '_tx_attrs') and selector(elem):
+            collected.append(elem)
+            collected_ids.add(id(elem))
+    {ROOT}
+    return collected"""
+_COND = [("not children_first and ", "WhenNotCf"), ("children_first and ", "WhenCf"), ("", "Always"), ("False and ", "Never")]
+GC_H = {
+    "SEEN": [("id(elem) in collected_ids", "SeenId"), ("elem in collected", "SeenEq")],
+    "PRE": _COND, "POST": _COND,
+    "GUARD": [("attr.cont", None), ("attr.cont or attr.ref", None)],            # reported by src_follow_guard
+    "MULTS": [("MULT_ONE, MULT_OPTIONAL", None), ("MULT_OPTIONAL, MULT_ONE", None), ("MULT_ONE,", None), ("MULT_OPTIONAL,", None)],
+    "SINGLE": [("new_elem is not None and should_follow(new_elem)", "(NotNone, true)"), ("new_elem and should_follow(new_elem)", "(Truthy, true)"),
+               ("new_elem is not None", "(NotNone, false)"), ("new_elem", "(Truthy, false)")],
+    "ELEM": [("if should_follow(new_elem):\n                                    follow(new_elem)", "(NotNone, true)"),
+             ("if new_elem and should_follow(new_elem):\n                                    follow(new_elem)", "(Truthy, true)"),
+             ("if new_elem is not None and should_follow(new_elem):\n                                    follow(new_elem)", "(NotNone, true)"),
+             ("follow(new_elem)", "(NotNone, false)")],
+    "ROOT": [("follow(root)", "false"), ("if should_follow(root):\n        follow(root)", "true")],
+}
+
+OFT_T = """def get_children_of_type(typ, root, children_first=False, should_follow=lambda obj: True):
+    if not isinstance(typ, str):
+        typ = typ.__name__
+    return get_children(lambda x: x.__class__.__name__ == typ, root, children_first=children_first, should_follow=should_follow)"""
+
+
+def translate_bodies():
+    tree, _ = parse_file("textx/model.py")
+    fns = {n.name: n for n in tree.body if isinstance(n, ast.FunctionDef)}
+    for n in ("get_model", "get_parent_of_type", "get_children", "get_children_of_type"):
+        need(n in fns, "function %s not found at module level" % n)
+    gm = _match("get_model", _norm(fns["get_model"]), GM_T, GM_H)
+    pot = _match("get_parent_of_type", _norm(fns["get_parent_of_type"]), POT_T, POT_H)
+    gc = _match("get_children", _norm(fns["get_children"]), GC_T, GC_H)
+    _match("get_children_of_type", _norm(fns["get_children_of_type"]), OFT_T, {})
+    emit("SrcNavBody", "\n".join([
+        "From TxV Require Import Core.Base Model.NavCfg.",
+        "Definition src_gm_loop : loop_test := %s." % gm["LOOP"],
+        "Definition src_pot_test_start : bool := %s." % pot["LOOP"],
+        "Definition src_gc_cfg : gc_cfg :=",
+        "  {| g_seen := %s; g_pre := %s; g_post := %s;" % (gc["SEEN"], gc["PRE"], gc["POST"]),
+        "     g_single := %s; g_elem := %s; g_root_sf := %s |}." % (gc["SINGLE"], gc["ELEM"], gc["ROOT"]),
+    ]) + "\n")
+    return []
+
+
+def translate():
+    return (translate_stack() or []) + (translate_bodies() or [])
